@@ -34,7 +34,7 @@ type copyState struct {
 
 func RunBuffer(c *sim.Ctx) {
 	n := knobInt(c, "events", 1, 10)
-	c.ProbeDecl("process_failure_injected", "check_failure_injected", "spilled_by_limit", "duplicate_copy_pushed", "connected_outside_buffer", "push_processed_2_or_more_events", "push_processed_3_or_more_events", "all_events_processed_with_ample_limits", "event_names_a_parent_twice")
+	c.ProbeDecl("process_failure_injected", "check_failure_injected", "spilled_by_limit", "duplicate_copy_pushed", "connected_outside_buffer", "push_processed_2_or_more_events", "push_processed_3_or_more_events", "all_events_processed_with_ample_limits", "event_names_a_parent_twice", "byte_limit_equals_size_of_some_events", "limits_exactly_the_peak_need")
 	// a DAG: event i has up to 3 parents among 0..i-1
 	type evd struct {
 		parents []int
@@ -93,6 +93,15 @@ func RunBuffer(c *sim.Ctx) {
 	} else {
 		ample = false
 	}
+	if !(sizeChoice > n) && knobInt(c, "limit_bytes_exactly_some_events", 0, 2) == 0 && sizeChoice > 0 {
+		// a byte limit that is exactly the size of a run of events: the boundary case "buffered bytes == limit"
+		first := knobInt(c, "limit_bytes_first_event", 0, n-1)
+		limSize = 0
+		for j := 0; j < sizeChoice; j++ {
+			limSize += uint64(evs[(first+j)%n].base.Size())
+		}
+		c.Probe("byte_limit_equals_size_of_some_events")
+	}
 	limit := dag.Metric{Num: idx.Event(limNum), Size: limSize}
 	// "no limit" is written in several ways by applications: generous numbers or the largest values of the types
 	switch knobInt(c, "ample_limit_style", 0, 3) {
@@ -115,6 +124,94 @@ func RunBuffer(c *sim.Ctx) {
 			limit.Size = math.MaxInt64
 		}
 	}
+	// peak-exact mode: every event is pushed once, in a drawn order, nothing fails, and the limits are EXACTLY what that
+	// order needs at its worst moment (computed on a model of the buffer): the limits suffice, so every event has
+	// to be processed, and "buffered == limit" is reached
+	var pre []sim.Op
+	peakExact := knobInt(c, "limits_exactly_the_peak_need", 0, 5) == 0
+	if peakExact {
+		left := make([]int, n)
+		for i := range left {
+			left[i] = i
+		}
+		for len(left) > 0 {
+			op, ok := c.Next(func() (sim.Op, bool) {
+				j := c.Pick("next_event", len(left))
+				return sim.Op{K: "push", A: []int64{int64(left[j]), int64(c.Pick("peer", 3))}}, true
+			})
+			if !ok {
+				break
+			}
+			if op.K != "push" || len(op.A) < 2 {
+				pre = append(pre, op) // (a minimised trace) not lost: executed in its turn
+				break
+			}
+			e := int(op.A[0]) % n
+			for j := range left {
+				if left[j] == e {
+					left = append(left[:j], left[j+1:]...)
+					break
+				}
+			}
+			pre = append(pre, op)
+			if c.Replaying() && len(pre) >= n {
+				break
+			}
+		}
+		conn, held := map[int]bool{}, map[int]bool{}
+		var peakN, peakW, curW uint64
+		curN := uint64(0)
+		for _, op := range pre {
+			if op.K != "push" {
+				continue
+			}
+			e := int(op.A[0]) % n
+			if conn[e] || held[e] {
+				continue
+			}
+			ready := func(x int) bool {
+				for _, p := range evs[x].parents {
+					if !conn[p] {
+						return false
+					}
+				}
+				return true
+			}
+			if !ready(e) {
+				held[e] = true
+				curN++
+				curW += uint64(evs[e].base.Size())
+				if curN > peakN {
+					peakN = curN
+				}
+				if curW > peakW {
+					peakW = curW
+				}
+				continue
+			}
+			conn[e] = true
+			for again := true; again; {
+				again = false
+				for x := range held {
+					if held[x] && ready(x) {
+						delete(held, x)
+						curN--
+						curW -= uint64(evs[x].base.Size())
+						conn[x] = true
+						again = true
+					}
+				}
+			}
+		}
+		if peakN == 0 {
+			peakExact = false // nothing is ever buffered in this order: ordinary limits apply
+		} else {
+			limit = dag.Metric{Num: idx.Event(peakN), Size: peakW}
+			limNum = int(peakN)
+			ample = true
+			c.Probe("limits_exactly_the_peak_need")
+		}
+	}
 	failProc := map[int]bool{}
 	failCheck := map[int]bool{}
 	nf := knobInt(c, "failing_events", 0, 2)
@@ -127,6 +224,9 @@ func RunBuffer(c *sim.Ctx) {
 		}
 	}
 	nPush := knobInt(c, "pushes", 1, 2*n+2)
+	if peakExact {
+		failProc, failCheck = map[int]bool{}, map[int]bool{}
+	}
 
 	connected := map[int]bool{} // events the application holds (processed successfully or connected outside)
 	var copies []*copyState
@@ -215,6 +315,13 @@ func RunBuffer(c *sim.Ctx) {
 
 	pushedEv := map[int]int{}
 	gen := func() (sim.Op, bool) {
+		if peakExact {
+			if !cleared {
+				cleared = true
+				return sim.Op{K: "clear"}, true
+			}
+			return sim.Op{}, false
+		}
 		if len(c.Trace.Ops) >= nPush {
 			if !cleared {
 				cleared = true
@@ -231,7 +338,13 @@ func RunBuffer(c *sim.Ctx) {
 		return sim.Op{K: "push", A: []int64{int64(c.Pick("event", n)), int64(c.Pick("peer", 3))}}, true
 	}
 	for {
-		op, ok := c.Next(gen)
+		var op sim.Op
+		ok := true
+		if len(pre) > 0 {
+			op, pre = pre[0], pre[1:]
+		} else {
+			op, ok = c.Next(gen)
+		}
 		if !ok {
 			break
 		}
